@@ -35,9 +35,10 @@ Proof.
     unfold receive in E. destruct (check_ttl w ttl) as [[]|e|q]; try (inversion E; subst; auto).
     destruct (existsb _ _); [inversion E; subst; auto|].
     destruct (next_child w) as [w1 key] eqn:En.
+    apply next_child_spec in En as (_ & _ & _ & _ & _ & _ & _ & C1 & C2).
+    destruct crypto_ok; cbn [negb] in E; [|inversion E; subst; auto].
     match type of E with context [next_log_id w1 ?p] => destruct (next_log_id w1 p) as [w2 id] eqn:El end.
     inversion E; subst; clear E. cbn [w_confh w_active with_log with_outs].
-    apply next_child_spec in En as (_ & _ & _ & _ & _ & _ & _ & C1 & C2).
     apply next_log_id_spec in El as (_ & _ & _ & _ & _ & D1 & D2). split; congruence.
   - (* build_coinbase *)
     destruct (coinbase w fees height key) as [w' r] eqn:E. cbn [fst].
@@ -104,4 +105,22 @@ Proof.
   assert (Hc : candb r = false).
   { unfold candb. rewrite (bucket_spendable_unspent _ _ _ Hb). now rewrite andb_false_r. }
   split; [apply A; assumption|]. rewrite C, D. exact Hb.
+Qed.
+
+(** a receive that is refused — expired, already received, or for its signature data — writes no
+    output, no log entry and no context (at most the key index has moved on) *)
+Theorem refused_receive_writes_nothing w s a t d c :
+  is_ok (snd (receive w s a t d c)) = false ->
+  let w' := fst (receive w s a t d c) in
+  w_outs w' = w_outs w /\ w_log w' = w_log w /\ w_ctxs w' = w_ctxs w.
+Proof.
+  unfold receive.
+  destruct (check_ttl w t) as [[]|e|q]; cbn [fst snd]; try (intros _; repeat split; reflexivity).
+  destruct (existsb _ _); cbn [fst snd]; [intros _; repeat split; reflexivity|].
+  destruct (next_child w) as [w1 key] eqn:En.
+  apply next_child_spec in En as (_ & _ & _ & Ho & Hl & Hc & _).
+  destruct c; cbn [negb].
+  - match goal with |- context [next_log_id w1 ?p] => destruct (next_log_id w1 p) as [w2 id] end.
+    cbn [fst snd is_ok]. discriminate.
+  - cbn [fst snd]. intros _. repeat split; assumption.
 Qed.
